@@ -46,6 +46,7 @@ struct Thread
     uint64_t consec = 0;
     uint64_t last_ran = 0; // step at which it was last chosen
     bool spurious = false;
+    bool in_prewait = false;
     uint64_t start_delay = 0;
 };
 
@@ -477,6 +478,16 @@ blocked_not_sleeping(int tid)
 }
 
 int
+cond_waiters()
+{
+    int n = 0;
+    for (Thread* t : K.threads)
+        if (t->state == T_BLK_COND || (t->in_prewait && t->state != T_DONE))
+            ++n;
+    return n;
+}
+
+int
 live_created_threads()
 {
     int n = 0;
@@ -582,6 +593,9 @@ progress_done(int handle)
 // Picks the next thread to run and transfers control.  The caller has already
 // set its own state (RUNNABLE when merely yielding).  `exiting` = the caller's
 // real thread is about to return and must not park.
+static uint64_t g_trace_from =
+  getenv("VSIM_TRACE_FROM") ? strtoull(getenv("VSIM_TRACE_FROM"), 0, 10) : 0;
+
 static void
 reschedule(bool exiting)
 {
@@ -646,8 +660,13 @@ reschedule(bool exiting)
                     }
             }
         }
-        if (K.cfg.p_stall > 0 && me->state == T_RUNNABLE && !exiting &&
-            K.rng.chance(K.cfg.p_stall)) {
+        double ps = K.cfg.p_stall;
+        if (me->in_prewait && K.cfg.p_prewait > ps)
+            ps = K.cfg.p_prewait;
+        if (ps > 0 && me->state == T_RUNNABLE && !exiting &&
+            K.rng.chance(ps)) {
+            if (me->in_prewait)
+                probe("k.prewait_stalls");
             uint64_t d = random_stall(K.rng, K.cfg.max_stall_ns);
             me->state = T_SLEEPING;
             me->deadline = K.now + d;
@@ -752,6 +771,19 @@ reschedule(bool exiting)
             next = starved;
             probe("k.starvation_guard");
         }
+    }
+    if (g_trace_from && K.step >= g_trace_from) {
+        static FILE* tf = fopen("/tmp/vsim.trace", "w");
+        fprintf(tf, "step %llu me=%s(%s) next=%s n=%d now=%llu |",
+                (unsigned long long)K.step, me->name.c_str(),
+                state_name(me->state), next->name.c_str(), n,
+                (unsigned long long)K.now);
+        for (Thread* t : K.threads)
+            if (t->state != T_DONE)
+                fprintf(tf, " %s:%s:%llu", t->name.c_str(),
+                        state_name(t->state), (unsigned long long)t->last_ran);
+        fprintf(tf, "\n");
+        fflush(tf);
     }
     next->last_ran = K.step;
     if (next != dflt)
@@ -1027,6 +1059,11 @@ extern "C"
             return 0;
         }
         reschedule(false); // preemption point before acquiring
+        // Being chosen only to find the mutex still held is not progress: the
+        // starvation guard keeps counting from before the first attempt, so
+        // that a waiter which a priority strategy passes over at every
+        // release is eventually handed the mutex.
+        const uint64_t waiting_since = me->last_ran;
         while (mutex_owner(m) != 0) {
             if (mutex_owner(m) == me->id + 1) {
                 violation("self_deadlock",
@@ -1037,6 +1074,8 @@ extern "C"
             me->wait_obj = m;
             probe("k.mutex_contended");
             reschedule(false);
+            if (mutex_owner(m) != 0)
+                me->last_ran = waiting_since;
         }
         mutex_owner(m) = me->id + 1;
         return 0;
@@ -1091,7 +1130,9 @@ extern "C"
             return 0;
         // The window between "caller evaluated its predicate" and "caller is
         // enqueued": a signal sent without the mutex in this window is lost.
+        me->in_prewait = true;
         reschedule(false);
+        me->in_prewait = false;
         me->state = T_BLK_COND;
         me->wait_obj = c;
         me->spurious = false;
@@ -1099,10 +1140,13 @@ extern "C"
         probe("k.cond_waits");
         reschedule(false);
         // woken (broadcast or spurious): re-acquire the mutex
+        const uint64_t waiting_since = me->last_ran;
         while (mutex_owner(m) != 0) {
             me->state = T_BLK_MUTEX;
             me->wait_obj = m;
             reschedule(false);
+            if (mutex_owner(m) != 0)
+                me->last_ran = waiting_since;
         }
         mutex_owner(m) = me->id + 1;
         return 0;
